@@ -211,7 +211,7 @@ func TestC16(t *testing.T) {
 		nt := len(w.Batches) >= 2 && w.nontrivial()
 		mp := false
 		for _, b := range w.Batches {
-			if b > w.PageSize {
+			if b > w.effPage() {
 				mp = true
 			}
 		}
